@@ -17,9 +17,9 @@
 (* unlimited precision is refused by panic unless the result is exact; and *)
 (* that a result that can carry the Exact flag is exact.  The last one     *)
 (* does NOT hold for the code as it is: the flag of a series result is the *)
-(* flag of its final rounding alone (finding F35), and a negative integer  *)
-(* power drops the flag of the intermediate power (finding F36).  The      *)
-(* invariant is therefore `ExactFlagTruthful \/ Known_F35 \/ Known_F36`    *)
+(* flag of its final rounding alone (finding F32b), and a negative integer  *)
+(* power drops the flag of the intermediate power (finding F32c).  The      *)
+(* invariant is therefore `ExactFlagTruthful \/ Known_F32b \/ Known_F32c`    *)
 (* with the same predicates the trace findings use.                        *)
 (***************************************************************************)
 EXTENDS Integers, Sequences, TLC
@@ -188,9 +188,9 @@ OtherwiseEvaluated == (Done /\ plim /\ InDomain(op, xc, ec) /\ SpecialVal = "non
 \* a result that can be flagged Exact is exact
 \* (a rounded argument and a product of rounded squarings carry the conjunction of their step flags: truthful)
 ExactFlagTruthful == (Done /\ InDomain(op, xc, ec) /\ ret.flag \in {"Exact", "Maybe"}) => (ret.exact \/ ret.kind \in {"rounded-arg", "product"})
-\* F35: the flag of a series result is the flag of its last rounding
-Known_F35 == Done /\ ret.kind = "series" /\ ret.flag = "Maybe"
-\* F36: Context::powi with a negative exponent drops the flag of the intermediate power
-Known_F36 == Done /\ op = "powi" /\ ret.kind = "quotient" /\ ret.flag = "Maybe"
-ExactFlagOrKnown == ExactFlagTruthful \/ Known_F35 \/ Known_F36
+\* F32b: the flag of a series result is the flag of its last rounding
+Known_F32b == Done /\ ret.kind = "series" /\ ret.flag = "Maybe"
+\* F32c: Context::powi with a negative exponent drops the flag of the intermediate power
+Known_F32c == Done /\ op = "powi" /\ ret.kind = "quotient" /\ ret.flag = "Maybe"
+ExactFlagOrKnown == ExactFlagTruthful \/ Known_F32b \/ Known_F32c
 =============================================================================
